@@ -113,6 +113,35 @@ Proof.
     intros p Hp. apply F in Hp. rewrite evict_one_idx in Hp. apply remove_key_In in Hp. tauto.
 Qed.
 
+(* flush: the same single step, other guards *)
+Lemma flush_oracle_frame c vs : forall s s',
+  flush_oracle c vs s = Some s' ->
+  arena s' = arena s /\ capacity s' = capacity s /\ refs s' = refs s /\ handles s' = handles s /\
+  pinned s' = pinned s /\ idx s' = [].
+Proof.
+  induction vs as [|k vs IH]; intros s s'; simpl.
+  - destruct (idx s) eqn:E; intros H; inversion H; subst. repeat split; auto.
+  - destruct (lookup k (idx s)) as [i|] eqn:Hl; [|discriminate].
+    assert (Hstep : flush_oracle c vs (evict_one c s k i) = Some s' ->
+      arena s' = arena s /\ capacity s' = capacity s /\ refs s' = refs s /\ handles s' = handles s /\
+      pinned s' = pinned s /\ idx s' = []).
+    { intros H. destruct (IH _ _ H) as (A & B & C & D & E & F).
+      rewrite evict_one_arena in A. rewrite evict_one_capacity in B. rewrite evict_one_refs in C.
+      rewrite evict_one_handles in D. rewrite evict_one_pinned in E. repeat split; auto. }
+    destruct (_ || _); [exact Hstep|]. destruct (memb i (pinned s)); [discriminate|exact Hstep].
+Qed.
+
+Lemma IdxInv_flush_oracle c vs : forall s s',
+  IdxInv s -> flush_oracle c vs s = Some s' -> IdxInv s'.
+Proof.
+  induction vs as [|k vs IH]; intros s s' HI; simpl.
+  - destruct (idx s); intros H; inversion H; subst; assumption.
+  - destruct (lookup k (idx s)) as [i|] eqn:Hl; [|discriminate].
+    assert (Hstep : flush_oracle c vs (evict_one c s k i) = Some s' -> IdxInv s').
+    { intros H. eapply IH; [|exact H]. apply IdxInv_evict_one; assumption. }
+    destruct (_ || _); [exact Hstep|]. destruct (memb i (pinned s)); [discriminate|exact Hstep].
+Qed.
+
 Lemma IdxInv_insert c s k v w hsh low ph h vs s' :
   IdxInv s -> insert c s k v w hsh low ph h vs = Some s' -> IdxInv s'.
 Proof.
@@ -244,6 +273,7 @@ Proof.
   - unfold resize in H. eapply IdxInv_evict_oracle; [|exact H].
     eapply IdxInv_frame; [| | | | exact HI]; reflexivity.
   - unfold evict_all in H. eapply IdxInv_evict_oracle; eauto.
+  - unfold flush in H. eapply IdxInv_flush_oracle; eauto.
   - inversion H; subst. apply IdxInv_clone; assumption.
   - inversion H; subst. apply IdxInv_drop; assumption.
 Qed.
